@@ -67,9 +67,17 @@ def render(case, obs):
         return ('latest', f'({clist([cstr(x) for x in case["tags"]])}, {o})')
     if case['kind'] == 'history':
         i = 0
+        rel = [list(r) for r in rel]
+        for op in case['ops']:                       # the remote table of the model holds every release ever published
+            if op[0] == 'publish' and op[2] not in rel[op[1]]:
+                rel[op[1]].append(op[2])
+        known = [list(r) for r in case.get('releases', RELEASES)]
         for op, st in zip(case['ops'], obs['steps']):
-            if op[0] == 'load':
-                cmds += [f'CAct (Spawn {cloader(op[1], resolve_release(rel, op[1], op[2]), op[3], i)})', f'CFinish {i}']
+            if op[0] == 'publish':
+                if op[2] not in known[op[1]]:
+                    known[op[1]].append(op[2])
+            elif op[0] == 'load':
+                cmds += [f'CAct (Spawn {cloader(op[1], resolve_release(known, op[1], op[2]), op[3], i)})', f'CFinish {i}']
                 i += 1
             elif op[0] == 'clear':
                 cmds.append('CAct ClearAll' if op[1] is None else f'CAct (ClearType {op[1]})')
@@ -123,7 +131,7 @@ def evaluate(chk, cases, tag='cases'):
 
 ALPHABET = [['load', 0, 'v2023-10-09', None, False], ['load', 0, None, None, False], ['load', 1, None, None, False], ['load', 0, None, 'fetch', False],
             ['load', 0, None, 'read', False], ['load', 0, None, ['write', 5], False], ['load', 0, None, ['close', 3], False], ['load', 0, 'v2023-01-27', None, True],
-            ['clear', 0], ['clear', 1], ['clear', 2], ['clear', None], ['resolve', 0, None]]
+            ['clear', 0], ['clear', 1], ['clear', 2], ['clear', None], ['resolve', 0, None], ['publish', 0, 'v2025-01-15']]
 
 
 def interleavings(a, b):
@@ -202,7 +210,7 @@ def run(chk):
     chk.traces = sum(1 for c in cases if c['kind'] != 'latest')
     chk.exhaustive = True
     chk.extra['race_schedules'] = sum(1 for c in cases if c['kind'] == 'race')
-    chk.rule = ('ALL histories of length <= 2 over 13 operations {load a release / latest / another type, load with fetch / read / write / flush-at-close fault, full loader, clear(type) x3, clear(), '
+    chk.rule = ('ALL histories of length <= 2 over 14 operations {load a release / latest / another type, load with fetch / read / write / flush-at-close fault, full loader, the remote publishes a newer release, clear(type) x3, clear(), '
                 'resolve path} x {absolute, relative} store + random histories of length 3-8: after EVERY operation the store is snapshot (cache files and their bytes, other '
                 'files, fetch log, outcome of every load) and compared with the model; a kill (os._exit in a forked child) before EVERY I/O boundary of a load with nothing / the '
                 'same / another release cached, followed by a recovery load; races of two loaders of the same release: all interleavings with <= 2 preemptions + 120 random '
